@@ -26,6 +26,18 @@ pub fn builtin_binary_repeat<E: Effect>(
                 }
                 let count = bigint_to_usize(count)?;
                 let unit = executor.get_binary_data(binary)?.clone();
+                // Check the realized length before building the tile: `unit.len() * count`
+                // must not overflow (it is what `BinaryData::len` computes).
+                if unit
+                    .len()
+                    .checked_mul(count)
+                    .is_none_or(|total| total > crate::value::MAX_BINARY_SIZE)
+                {
+                    return Err(Error::InvalidArgument(format!(
+                        "Repeated size exceeds maximum {}",
+                        crate::value::MAX_BINARY_SIZE
+                    )));
+                }
                 let tiled = BinaryData::tiled(Rc::new(unit), count);
                 // allocate_binary_data enforces MAX_BINARY_SIZE against the realized length.
                 let binary = executor.allocate_binary_data(tiled)?;
